@@ -22,7 +22,11 @@
  *        replaced by the scripted results (consumed in call order) ->
  *        "rv=<n> ## st=<hc><ef><ab> used=<k> err=<class>"
  *
- *   hs <k=v>...      one complete session over an AF_UNIX socketpair, see do_hs() ->
+ *   hs <k=v>...      one complete session over an AF_UNIX socketpair, see do_hs().  Optional noise=<0..255>:
+ *                    before each scheduler step, with probability noise/256, an UNRELATED library call that
+ *                    is (correctly) rejected is made in the same thread on scratch objects -- bogus cipher
+ *                    string, bogus curve, missing key file, missing CA file -- which leaves entries in
+ *                    OpenSSL's per-thread error queue; for the session (and for the model) this is a no-op ->
  *        "est=<0|1> ver=<..> rvs=<ok|bad..> want=<ok|bad..> data=<ok|..> h=<c2s fnv>,<s2c fnv> eof=<..> close=<..>,<..> cut=<..>"
  *        (with C17_DEBUG set: " ## chs= shs= cutread= cerr= serr= steps= wants=" for humans; not compared)
  *   usage: h <tmpdir> [<stats.json>]
@@ -591,8 +595,10 @@ fail:
 /* ------------------------------------------------------------------ hs op */
 
 static int g_debug;
+static char g_tmpdir[256];
 static long g_cutread = -99;
 static long st_sessions, st_est, st_steps, st_wants, st_calls, st_bytes, st_cutread0, st_cutreaderr, st_partial;
+static long st_noise, st_noise_dirty;
 
 enum { PH_HS, PH_PING1, PH_PING2, PH_DATA, PH_DRAIN, PH_CLOSE, PH_CUTREAD, PH_DONE, PH_FAILED };
 
@@ -816,8 +822,51 @@ static void ep_step(struct ep *e, struct ep *peer)
 	}
 }
 
+/* An unrelated, correctly rejected library call on scratch objects; leaves OpenSSL's error queue
+ * dirty (counted).  Nothing here touches the session under test. */
+static void do_noise(unsigned kind)
+{
+	struct tls_config *cfg = tls_config_new();
+	struct tls *t = NULL;
+	int sp[2] = { -1, -1 };
+	char path[512];
+
+	if (!cfg) return;
+	st_noise++;
+	switch (kind % 5) {
+	case 0:		/* config reload with a typo in the cipher list */
+		(void)tls_config_set_ciphers(cfg, "NO-SUCH-CIPHER-SUITE");
+		break;
+	case 1:		/* unknown curve name */
+		(void)tls_config_set_ecdhecurve(cfg, "no-such-curve");
+		break;
+	case 2:		/* server context whose certificate/key files do not exist */
+		snprintf(path, sizeof path, "%s/does-not-exist.pem", g_tmpdir);
+		tls_config_set_keypair_file(cfg, path, path);
+		if ((t = tls_server()) != NULL)
+			(void)tls_configure(t, cfg);
+		break;
+	case 3:		/* client whose CA file does not exist */
+		snprintf(path, sizeof path, "%s/does-not-exist-ca.pem", g_tmpdir);
+		tls_config_set_ca_file(cfg, path);
+		if ((t = tls_client()) != NULL && tls_configure(t, cfg) == 0 &&
+		    socketpair(AF_UNIX, SOCK_STREAM, 0, sp) == 0)
+			(void)tls_connect_fds(t, sp[0], sp[0], "server.com");
+		break;
+	default:	/* garbage where a PEM key is expected */
+		tls_config_set_keypair_mem(cfg, (const uint8_t *)"junk", 4, (const uint8_t *)"junk", 4);
+		if ((t = tls_server()) != NULL)
+			(void)tls_configure(t, cfg);
+		break;
+	}
+	if (__real_ERR_peek_error() != 0) st_noise_dirty++;
+	usual_tls_free(t);
+	if (sp[0] >= 0) { close(sp[0]); close(sp[1]); }
+	cfg_free(cfg);
+}
+
 struct hs_par {
-	int ciph, cp, sp, vc, vn, vt, svc, svt, cca, sca, cam, sam, kpm, first, cut, bias, burst;
+	int ciph, cp, sp, vc, vn, vt, svc, svt, cca, sca, cam, sam, kpm, first, cut, bias, burst, noise;
 	const char *scert, *ccert, *host;
 	uint64_t seed;
 	long buf, n, chunk;
@@ -846,7 +895,6 @@ static int set_ca(struct tls_config *cfg, int ca, int mem)
 }
 
 /* keypair either in memory or (mode 1) through temporary files */
-static char g_tmpdir[256];
 static int set_keypair(struct tls_config *cfg, struct certent *ce, int via_file, int slot)
 {
 	if (via_file) {
@@ -891,6 +939,10 @@ static void do_hs(char **w, int n)
 	GETI("bias", P.bias, 1, 255); GETI("burst", P.burst, 1, 64);
 	GETI("buf", P.buf, 0, 1 << 20); GETI("n", P.n, 0, 1 << 26); GETI("chunk", P.chunk, 1, 65536);
 #undef GETI
+	if (kv_get(w + 1, n - 1, "noise", &v)) {
+		if (!parse_int(v, &lv) || lv < 0 || lv > 255) goto bad;
+		P.noise = lv;
+	}
 	if ((P.cp & 1) || (P.sp & 1)) goto bad;
 	if (!kv_get(w + 1, n - 1, "seed", &v) || !parse_u64(v, &P.seed)) goto bad;
 	if (!kv_get(w + 1, n - 1, "scert", &P.scert)) goto bad;
@@ -994,6 +1046,8 @@ static void do_hs(char **w, int n)
 			run = 1 + rnd(P.burst);
 			while (run-- > 0 && e->phase < PH_DONE) {
 				int ph = e->phase;
+				if (P.noise && rnd(256) < (unsigned)P.noise)
+					do_noise(rnd(5));
 				size_t moved = e->nin + e->nout;
 				long wants = e->nwants;
 				ep_step(e, o);
@@ -1103,9 +1157,10 @@ int main(int argc, char **argv)
 		if (f) {
 			fprintf(f, "{\"sessions\": %ld, \"established\": %ld, \"steps\": %ld, \"want_events\": %ld, "
 				"\"tls_calls\": %ld, \"bytes_received\": %ld, \"partial_writes\": %ld, "
-				"\"cut_read_0\": %ld, \"cut_read_err\": %ld, \"certs_generated\": %d}\n",
+				"\"cut_read_0\": %ld, \"cut_read_err\": %ld, \"certs_generated\": %d, "
+				"\"noise_calls\": %ld, \"noise_calls_leaving_error_queue_dirty\": %ld}\n",
 				st_sessions, st_est, st_steps, st_wants, st_calls, st_bytes, st_partial,
-				st_cutread0, st_cutreaderr, g_ncerts);
+				st_cutread0, st_cutreaderr, g_ncerts, st_noise, st_noise_dirty);
 			fclose(f);
 		}
 	}
